@@ -44,6 +44,14 @@ PKGVARS = os.path.join(common.COQ, "c20", "C20PkgVars.v")
 REACH = os.path.join(common.COQ, "c20", "C20Reach.v")
 ALIAS = os.path.join(common.COQ, "c20", "C20Alias.v")
 FACTS_V = os.path.join(common.COQ, "c20", "C20Facts.v")
+AUDIT_V = os.path.join(common.COQ, "c20", "C20AliasAudit.v")
+
+
+def coq_strings(path, name):
+    """The string literals of `Definition <name> ... := [ ... ].` (first component of tuples for the mutator list: pairs)."""
+    import re
+    m = re.search(r"Definition %s\b.*?:=\s*\[(.*?)\n\s*\]\s*\." % name, open(path).read(), re.S)
+    return re.findall(r'"([^"]*)"', m.group(1)) if m else []
 REGISTRY_VARS = {"mp4.decoders", "mp4.decodersSR"}
 REGISTRY_MUTATORS = {"SetBoxDecoder", "RemoveBoxDecoder"}
 # mirrors kind_globals_r / global_idx of coq/c20/C20ReachProofs.v (only used to NAME the offender; the theorem decides)
@@ -87,11 +95,17 @@ def build(ctx):
 def extract_facts(ctx, plain):
     """Runs the extractor (it rewrites C20PkgVars.v only when the table differs) and re-evaluates the policy on the
     TSV listing so that a violation can name the variable, the function and the source line."""
-    rc, so, se = sh2([plain, "facts", "-repo", common.REPO, "-out", PKGVARS, "-reach", REACH], timeout=600)
+    rc, so, se = sh2([plain, "facts", "-repo", common.REPO, "-out", PKGVARS, "-reach", REACH, "-alias", ALIAS], timeout=600)
     if rc != 0:
         raise common.CheckError("source-fact extractor failed: " + (se or so)[-1500:])
     nvars, offenders, uses, skipped, stats = 0, [], 0, [], ""
     audited_shared = coq_list(FACTS_V, "audited_shared")
+    a_src = set(coq_strings(AUDIT_V, "audited_view_sources"))
+    a_keep = set(coq_strings(AUDIT_V, "audited_sr_keepers"))
+    a_view = set(coq_strings(AUDIT_V, "audited_byte_views"))
+    am = coq_strings(AUDIT_V, "audited_mutators")
+    a_mut = set(zip(am[0::2], am[1::2]))
+    alias = {"view_sources": 0, "sr_keepers": 0, "byte_views": 0, "mutators": []}
     reach = {"api_ops": 0, "reachable_reads": 0, "exported_writers": [], "shared_reference_typed": [], "stats": ""}
     for l in so.splitlines():
         f = l.split("\t")
@@ -131,6 +145,24 @@ def extract_facts(ctx, plain):
             for v in wr:
                 if not (kind in ("KSetBoxDecoder", "KRemoveBoxDecoder") and v in REGISTRY_VARS):
                     offenders.append({"variable": v, "function": fns, "use": "reachable change from table operation %s" % kind, "at": fns})
+        elif f[0] == "VIEWSRC":
+            alias["view_sources"] += 1
+            if f[1] not in a_src:
+                offenders.append({"variable": "(aliasing)", "function": f[1], "use": "NEW SliceReader method returning a view of the reader's buffer", "at": f[1]})
+        elif f[0] == "SRKEEP":
+            alias["sr_keepers"] += 1
+            if f[1] not in a_keep:
+                offenders.append({"variable": "(aliasing) " + (f[2] or "result"), "function": f[1],
+                                  "use": "NEW decoder keeping sub-slices of the SliceReader's buffer (fields: %s); not in audited_sr_keepers" % (f[2] or "-"), "at": f[1]})
+        elif f[0] == "BYTEVIEW":
+            alias["byte_views"] += 1
+            if f[1] not in a_view:
+                offenders.append({"variable": "(aliasing)", "function": f[1], "use": "NEW exported function keeping a view of a []byte argument; not in audited_byte_views", "at": f[1]})
+        elif f[0] == "MUTATOR":
+            alias["mutators"].append("%s(%s)" % (f[1], f[2]))
+            if (f[1], f[2]) not in a_mut:
+                offenders.append({"variable": "(aliasing) argument " + f[2], "function": f[1],
+                                  "use": "NEW exported function writing in place into bytes reachable from its argument %s (%s); not in audited_mutators" % (f[2], f[3]), "at": f[1]})
         elif f[0] == "XWRITER":
             pkg, fn, vs, kind, path = f[1:6]
             reach["exported_writers"].append("%s.%s" % (pkg, fn))
@@ -145,6 +177,7 @@ def extract_facts(ctx, plain):
                                   "use": "NEW package-level variable of reference type (%s; uses %s) reachable from %s exported function(s); not in audited_shared"
                                          % (tk, us, nf), "at": wit})
     ctx.notes["reach_facts"] = reach
+    ctx.notes["alias_facts"] = alias
     ctx.notes["source_facts"] = {"package_level_vars": nvars, "non_read_uses": uses, "offending_uses": len(offenders),
                                  "stats": stats, "files_skipped_by_build_tag": skipped}
     return offenders
@@ -241,14 +274,17 @@ def run(ctx):
     # 5 verdict
     if offenders:
         o = offenders[0]
-        desc = ("package-level state: %s is changed/escapes in %s (%s at %s); %d offending use(s); C20_pkg_vars_ok does not hold"
-                % (o["variable"], o["function"], o["use"], o["at"], len(offenders)))
+        thm = "C20_alias_facts_ok" if o["variable"].startswith("(aliasing)") else \
+              "C20_api_reach_ok" if ("reachable" in o["use"] or "NEW package-level" in o["use"] or o["variable"] == "(api)") else "C20_pkg_vars_ok"
+        what = "aliasing facts" if thm == "C20_alias_facts_ok" else "package-level state"
+        desc = ("%s: %s in %s (%s at %s); %d offending fact(s); %s does not hold"
+                % (what, o["variable"], o["function"], o["use"], o["at"], len(offenders), thm))
         if unknown:
             ctx.log(desc + " -- exhibited dynamically, see the failing input(s)")
             ctx.notes["source_facts"]["offenders"] = offenders[:20]
         else:
             ctx.violation({"kind": "package-level-writer", "offenders": offenders[:50],
-                           "theorem": "C20_pkg_vars_ok", "facts_file": "coq/c20/C20PkgVars.v",
+                           "theorem": thm, "facts_files": ["coq/c20/C20PkgVars.v", "coq/c20/C20Reach.v", "coq/c20/C20Alias.v"],
                            "searched": "%d concurrent rounds, no race / result difference / input mutation exhibited" % stats.get("rounds", 0)},
                           desc, no_input=True)
     if mism and not unknown:
